@@ -131,9 +131,6 @@ func (s *Shadow) Apply(o Op) string {
 		s.Keys["/pod/info/"+o.P] = true
 	case "RemovePod":
 		if !s.podHasNodes(o.P) {
-			if !s.Keys["/pod/info/"+o.P] {
-				div = "removepod-missing"
-			}
 			delete(s.Keys, "/pod/info/"+o.P)
 		}
 	case "AddNode":
@@ -164,10 +161,6 @@ func (s *Shadow) Apply(o Op) string {
 	case "SetNodeStatus":
 		if o.TTL > 0 && !s.Keys["/node/"+o.N] {
 			div = "nodestatus-missing-node"
-		}
-	case "SetWorkloadStatus":
-		if o.TTL == 0 && o.A != "" && o.E != "" && o.N != "" && !s.Keys["/workloads/"+o.St.ID] {
-			div = "wstatus0-missing-workload"
 		}
 	case "AddWorkload":
 		ks, ok := wlKeys(*o.W)
